@@ -140,10 +140,10 @@ Example C08_nonvacuous_spelling :
 Proof.
   split; [repeat constructor|]. split; [repeat constructor|]. split; [|split; vm_compute; reflexivity].
   unfold gspell_grp.
-  apply (gsp_flags gname (glname grp1) (gsname grp1) (gtnone grp1) (gtreq grp1)
+  apply (gsp_flags gname (glname grp1) (gsname grp1) (gtnone grp1) (gtreq grp1) (gtopt grp1)
            [((0, 0), 108%N); ((1, 0), 120%N)] [GFlag (0, 1)] [[45; 114]%N]); [discriminate| |].
   - repeat constructor; cbn; try discriminate; vm_compute; auto.
-  - apply (gsp_flags gname (glname grp1) (gsname grp1) (gtnone grp1) (gtreq grp1)
+  - apply (gsp_flags gname (glname grp1) (gsname grp1) (gtnone grp1) (gtreq grp1) (gtopt grp1)
              [((0, 1), 114%N)] [] []); [discriminate| |constructor].
     repeat constructor; cbn; try discriminate; vm_compute; auto.
 Qed.
